@@ -103,20 +103,14 @@ pub fn kruskal(store: &LpgStore, weight_property: Option<&str>) -> MstResult {
 
     // Collect all edges with weights (treating as undirected)
     let mut edges: Vec<(f64, NodeId, NodeId, EdgeId)> = Vec::new();
-    let mut seen_edges: std::collections::HashSet<(usize, usize)> =
-        std::collections::HashSet::new();
 
     for &node in &nodes {
-        let i = *node_to_idx.get(&node).unwrap();
         for (neighbor, edge_id) in store.edges_from(node, Direction::Outgoing) {
-            if let Some(&j) = node_to_idx.get(&neighbor) {
-                // For undirected: only add each edge once
-                let key = if i < j { (i, j) } else { (j, i) };
-                if !seen_edges.contains(&key) {
-                    seen_edges.insert(key);
-                    let weight = extract_weight(store, edge_id, weight_property);
-                    edges.push((weight, node, neighbor, edge_id));
-                }
+            if node_to_idx.contains_key(&neighbor) {
+                // Every stored edge appears once (at its source). Parallel edges are all
+                // kept: the lightest one must win, union-find rejects the others.
+                let weight = extract_weight(store, edge_id, weight_property);
+                edges.push((weight, node, neighbor, edge_id));
             }
         }
     }
@@ -217,7 +211,8 @@ pub fn prim(store: &LpgStore, weight_property: Option<&str>, start: Option<NodeI
         for (neighbor, edge_id) in store.edges_from(other, Direction::Outgoing) {
             if neighbor == start_node {
                 let weight = extract_weight(store, edge_id, weight_property);
-                heap.push(MinScored::new(weight, (other, start_node, edge_id)));
+                // Oriented tree -> outside: the target is the node to be added
+                heap.push(MinScored::new(weight, (start_node, other, edge_id)));
             }
         }
     }
@@ -247,7 +242,7 @@ pub fn prim(store: &LpgStore, weight_property: Option<&str>, start: Option<NodeI
                 for (neighbor, new_edge_id) in store.edges_from(other, Direction::Outgoing) {
                     if neighbor == dst {
                         let new_weight = extract_weight(store, new_edge_id, weight_property);
-                        heap.push(MinScored::new(new_weight, (other, dst, new_edge_id)));
+                        heap.push(MinScored::new(new_weight, (dst, other, new_edge_id)));
                     }
                 }
             }
